@@ -5,13 +5,25 @@ mod vf_kani_counter_words {
     use super::*;
 
     #[kani::proof]
+    fn vf_counter_low() {
+        let counter: u64 = kani::any();
+        assert!(counter_low(counter) as u64 == counter % (1u64 << 32), "low == counter mod 2^32");
+        kani::cover!(true, "harness end reachable");
+    }
+
+    #[kani::proof]
+    fn vf_counter_high() {
+        let counter: u64 = kani::any();
+        assert!(counter_high(counter) as u64 == counter / (1u64 << 32), "high == counter div 2^32");
+        kani::cover!(true, "harness end reachable");
+    }
+
+    #[kani::proof]
     fn vf_counter_words() {
         let counter: u64 = kani::any();
         let lo = counter_low(counter);
         let hi = counter_high(counter);
         assert!(((hi as u64) << 32) | (lo as u64) == counter, "(high << 32) | low == counter");
-        assert!(lo as u64 == counter % (1u64 << 32), "low == counter mod 2^32");
-        assert!(hi as u64 == counter / (1u64 << 32), "high == counter div 2^32");
         kani::cover!(true, "harness end reachable");
     }
 }
